@@ -1179,9 +1179,13 @@ Proof.
   { apply (is_listing_unique s d); [now apply plisting_is_listing | now apply (listing_is_children s d (href h) nd)]. }
   assert (Hc : 0 <= hrdc h) by lia.
   rewrite (readdir_page_raw s i h nd n nm Hh Hn Hd Hc). cbv zeta. cbn [fst snd].
-  set (M := skipn (Z.to_nat (hrdc h)) (dir_infos s nd)).
-  assert (Erest : skipn (prdc x) (plisting t d) = map fi_name M).
-  { rewrite Elist. unfold M, dir_names. rewrite skipn_map. f_equal. f_equal. rewrite E3. symmetry. apply Nat2Z.id. }
+  assert (Elen : length (plisting t d) = length (dir_infos s nd)) by (rewrite Elist; unfold dir_names; apply map_length).
+  assert (Eoff : Nat.min (prdc x) (length (plisting t d)) = Nat.min (Z.to_nat (hrdc h)) (length (dir_infos s nd))).
+  { rewrite Elen, E3, Nat2Z.id. reflexivity. }
+  rewrite Eoff. set (c := Nat.min (Z.to_nat (hrdc h)) (length (dir_infos s nd))).
+  set (M := skipn c (dir_infos s nd)).
+  assert (Erest : skipn c (plisting t d) = map fi_name M).
+  { rewrite Elist. unfold M, dir_names. now rewrite skipn_map. }
   rewrite Erest, map_length. fold (page_out (length M) n).
   split.
   - apply Rsim_set_handle; [exact R|]. repeat split; cbn; auto. lia.
